@@ -279,10 +279,8 @@ CONFIRMED_MEANS_SITES = {
 }
 
 
-def d5_idl_normalisation(ctx, obs):
-    """configuration lists are held as a range exactly when equally spaced: _merge_idx / _intersection_idx normalise their result"""
-    rule = 'C04-D5'
-    for fn, op in (('_merge_idx', 'union'), ('_intersection_idx', 'intersection')):
+def merge_idx_rules(ctx, obs, rule, which=(('_merge_idx', 'union'), ('_intersection_idx', 'intersection'))):
+    for fn, op in which:
         f = obs.func(fn)
         p = f.args.args[0].arg
         rets = [s for s in statements(f) if isinstance(s, ast.Return)]
@@ -305,6 +303,12 @@ def d5_idl_normalisation(ctx, obs):
         srt = [s for s in statements(f) if isinstance(s, ast.Assign) and isinstance(s.value, ast.Call) and call_name(s.value) == 'sorted']
         want = 'sorted(set().union(*%s))' % p if op == 'union' else 'sorted(set.intersection(*[set(o) for o in %s]))' % p
         ctx.check(rule, key + '#sorted-%s' % op, len(srt) == 1 and unparse(srt[0].value) == want, 'result = sorted %s of the lists' % op, 'result built as %s' % [unparse(s.value) for s in srt], obs.loc(f))
+
+
+def d5_idl_normalisation(ctx, obs):
+    """configuration lists are held as a range exactly when equally spaced: _merge_idx / _intersection_idx normalise their result"""
+    rule = 'C04-D5'
+    merge_idx_rules(ctx, obs, rule)
     f = obs.func('_check_lists_equal')
     t = unparse(f)
     ok = 'groupby(' in t and 'next(g, True) and (not next(g, False))' in t
